@@ -49,11 +49,7 @@ def classify_sinks(it, out, root: str, gwkey) -> List[dict]:
     """Classify every sink event on one path."""
     kind, st, v = out
     rows = []
-    msgkey = None
-    for e in st.events:
-        if e.kind == "new" and e.name == "message:Message" and e.func == "__init__:Gateway.logic":
-            msgkey = e.recv.key()
-            break
+    msgkey = common.inbound_message_key(st.events)
     inbound_node = st.mem.get((msgkey, "a", "node_id")) if msgkey else None
     routed = set()
     for idx, e in enumerate(st.events):
@@ -158,7 +154,7 @@ def logic_worker(analysis: Analysis, spec) -> dict:
                 sub = f[3]
         for e in s.events:
             if e.kind == "enter" and e.name == FLUSH:
-                msgkey = next((x.recv.key() for x in s.events if x.kind == "new" and x.name == "message:Message" and x.func == "__init__:Gateway.logic"), None)
+                msgkey = common.inbound_message_key(s.events)
                 node = s.mem.get((msgkey, "a", "node_id")) if msgkey else None
                 known = node is not None and ("in", node.key(), ("attr", ("root", "GW"), "sensors")) in (e.facts or ())
                 flush_entries.add((tname, sub, known))
